@@ -70,3 +70,17 @@ pub fn strip_header(p: &[u8]) -> Option<&[u8]> {
     }
     Some(&p[p.len()..])
 }
+
+/// standard base64 with padding
+pub fn base64(data: &[u8]) -> String {
+    const A: &[u8; 64] = b"ABCDEFGHIJKLMNOPQRSTUVWXYZabcdefghijklmnopqrstuvwxyz0123456789+/";
+    let mut out = String::new();
+    for ch in data.chunks(3) {
+        let b = [ch[0], *ch.get(1).unwrap_or(&0), *ch.get(2).unwrap_or(&0)];
+        let n = ((b[0] as u32) << 16) | ((b[1] as u32) << 8) | b[2] as u32;
+        out.push(A[(n >> 18) as usize & 63] as char); out.push(A[(n >> 12) as usize & 63] as char);
+        out.push(if ch.len() > 1 { A[(n >> 6) as usize & 63] as char } else { '=' });
+        out.push(if ch.len() > 2 { A[n as usize & 63] as char } else { '=' });
+    }
+    out
+}
